@@ -36,10 +36,12 @@ def configs(tier):
     thorough = tier == 'thorough'
     cfgs = []
     for spec in OR.SPECS:
-        if spec.exempt_deriv:
-            continue
         for i in range(len(spec.opts)):
-            cfgs.append({'kind': 'inst', 'spec': spec.name, 'i': i, 'npts': 3 if not thorough else 5})
+            c = {'kind': 'inst', 'spec': spec.name, 'i': i, 'npts': 3 if not thorough else 5}
+            if spec.exempt_deriv:
+                # accuracy is exempt by the property text; the history clauses are not
+                c['exempt'] = 1
+            cfgs.append(c)
     for space in (('rn3', 'ud3', 'rn3wa') if not thorough else ('rn3', 'ud3', 'rn3wa', 'rn3w2')):
         n1 = len(_d1(space)[1])
         for j in range(n1):
@@ -137,7 +139,12 @@ def _dirs(space):
     return S.basis(space)
 
 
-def check_derivative(op, pts, site, first, stats):
+def _same(a, b):
+    return a.shape == b.shape and bool(np.all((np.abs(a - b) <= 1e-12 * (1.0 + np.abs(b)))
+                                              | (np.isnan(a) & np.isnan(b))))
+
+
+def check_derivative(op, pts, site, first, stats, judge=True):
     dom, ran = op.domain, op.range
     n = S.flat_size(dom)
     if n > MAXDIM or S.flat_size(ran) > MAXDIM * 2:
@@ -150,6 +157,15 @@ def check_derivative(op, pts, site, first, stats):
                  for s in (dom, ran))
     dirs = _dirs(dom)
     xobj = None
+    # history (H2): a derivative taken at a PRIVATE copy of the first base point, which nobody
+    # modifies; it must act the same after every later call of op, op.derivative and D
+    held = None
+    try:
+        xpriv = S.from_flat(dom, pts[0])
+        Dp = op.derivative(xpriv)
+        held = (Dp, xpriv, [_rc(ran, Dp(S.from_flat(dom, e))) for e in dirs[:2]])
+    except Exception:
+        held = None
     for p in pts:
         try:
             # history: after the first base point the SAME element object is modified in place and
@@ -204,10 +220,21 @@ def check_derivative(op, pts, site, first, stats):
         for k, e in enumerate(dirs):
             try:
                 de = _rc(ran, D(S.from_flat(dom, e)))
+                if k < 2:
+                    # history (H1): the same derivative object applied to the same direction again
+                    de2 = _rc(ran, D(S.from_flat(dom, e)))
+                    stats['evals'] += 1
+                    if not _same(de2, de):
+                        first.setdefault((site, 'derivative_application_not_repeatable'),
+                                         'x=%s direction %d: derivative(x)(e) = %s at first, %s when '
+                                         'the same object is applied to e again'
+                                         % (np.asarray(p).tolist(), k, de.tolist(), de2.tolist()))
             except Exception as ex:
                 first.setdefault((site, 'derivative_call_raises:' + type(ex).__name__),
                                  'x=%s direction %d: %r' % (np.asarray(p).tolist(), k, ex))
                 break
+            if not judge:
+                continue
             ds = []
             ok = True
             for h in H:
@@ -246,6 +273,25 @@ def check_derivative(op, pts, site, first, stats):
                              % (np.asarray(p).tolist(), k, np.round(de, 10).tolist(),
                                 np.round(rich, 10).tolist(), np.round(ds[0], 8).tolist(),
                                 np.round(ds[2], 8).tolist()))
+    if held is not None:
+        Dp, xpriv, v0 = held
+        try:
+            if not S.is_field(dom) and not S.is_field(ran):
+                # one in-place evaluation at another point (what solvers do between two uses)
+                op(S.from_flat(dom, pts[-1]), out=ran.element())
+            v1 = [_rc(ran, Dp(S.from_flat(dom, e))) for e in dirs[:2]]
+            stats['evals'] += 2
+            if np.array_equal(S.to_flat(xpriv), S.to_flat(S.from_flat(dom, pts[0]))):
+                for k, (a, b) in enumerate(zip(v1, v0)):
+                    if not _same(a, b):
+                        first.setdefault((site, 'earlier_derivative_changed_by_later_calls'),
+                                         'D = op.derivative(x0) with x0 = %s (never modified): D(e_%d) '
+                                         '= %s at first, %s after op and op.derivative were used at '
+                                         'other points' % (np.asarray(pts[0]).tolist(), k, b.tolist(),
+                                                           a.tolist()))
+                        break
+        except Exception:
+            pass
 
 
 def run(cfg):
@@ -264,8 +310,9 @@ def run(cfg):
         site = '%s[%s]' % (spec.name, _optstr(o))
         dk = o.get('dk', spec.dk)
         pts = OR.points(op.domain, dk, cfg['npts'])
-        check_derivative(op, pts, site, first, stats)
-        sigs.append('%s:%s' % (type(op).__name__, 'lin' if op.is_linear else 'nonlin'))
+        check_derivative(op, pts, site, first, stats, judge=not cfg.get('exempt'))
+        sigs.append('%s:%s%s' % (type(op).__name__, 'lin' if op.is_linear else 'nonlin',
+                                 ':history-only' if cfg.get('exempt') else ''))
     elif k == 'expr':
         sp, pool = _d1(cfg['space'])
         name, mk = pool[cfg['j']]
